@@ -926,8 +926,10 @@ class Oracle:
                             # put it back so that any OTHER leak of
                             # run_from_experiment still shows below
                             solver._integrator.options["dt"] = dt0
-                except NotImplementedError:
-                    pass
+                except TimeoutError:
+                    raise
+                except Exception:
+                    pass       # whatever the earlier use did, the run below must not care
             res = P.run(solver, spec["ntraj"], spec["seed"])
         self.compare(P, res, "history", [_sid(s) for s in res0.seeds], {"events": evs})
 
@@ -1064,11 +1066,33 @@ class Oracle:
 
     # ------------------------------------------------------------------ driver
     def one_problem(self, spec, variants=None):
+        """all variants on one problem, under a watchdog: a solver that does not
+        come back (seen once with method='lsoda': MCIntegrator.integrate looping)
+        is recorded, it cannot be attributed to C13 without a reference run"""
+        import signal
+
+        def on_alarm(sig, frm):
+            raise TimeoutError("solver did not return within the watchdog time")
+        old = signal.signal(signal.SIGALRM, on_alarm)
+        signal.alarm(25 if self.ctx.quick else 60)
+        try:
+            return self._one_problem(spec, variants)
+        except TimeoutError:
+            self.dist["solver-hang"] = self.dist.get("solver-hang", 0) + 1
+            self.ctx.notes.append("watchdog: solver did not return on " + json.dumps(spec, sort_keys=True))
+            self.ctx.log("watchdog: solver did not return:", json.dumps(spec, sort_keys=True))
+        finally:
+            signal.alarm(0)
+            signal.signal(signal.SIGALRM, old)
+
+    def _one_problem(self, spec, variants=None):
         P = Problem(spec)
         with warnings.catch_warnings():
             warnings.simplefilter("ignore")
             try:
                 res0 = self.v_base(P)
+            except TimeoutError:
+                raise
             except Exception as e:
                 # a problem on which the solver itself fails (e.g. collapse time
                 # search) is not a C13 matter; count it as trivial
@@ -1089,9 +1113,15 @@ class Oracle:
                         getattr(self, "v_" + v)(P)
                     else:
                         getattr(self, "v_" + v)(P, res0)
+                except TimeoutError:
+                    raise
                 except Exception as e:
-                    if isinstance(e, (RuntimeError,)) and "collapse time" in str(e):
+                    if v in ("feedback", "mixed"):
+                        # other seeds / other initial states than the base run:
+                        # a failure of the solver itself is not a C13 matter
+                        self.dist["solver-error"] = self.dist.get("solver-error", 0) + 1
                         continue
+                    # same seeds as the base run, which succeeded for each of them
                     self.bad(spec, v, "exception:%s" % type(e).__name__,
                              {"error": repr(e)[:300]})
                 key = "%s/%s" % (spec["kind"], v)
